@@ -812,17 +812,17 @@ func ForallAuto(bv *Term, body *Term) *Term {
 	// index normalisation: a read a[c + i] becomes a[k] with k = c + i ranging instead of i, so that
 	// the trigger matches a read of a at any index term (not only those written as c + something)
 	for _, p := range pats {
-		if p.Op != "select" || p.Args[1].Op != "+" || len(p.Args[1].Args) != 2 {
+		if p.Op != "select" || (p.Args[1].Op != "+" && p.Args[1].Op != "-") {
 			continue
 		}
-		ix := p.Args[1]
-		var c *Term
-		if ix.Args[0] == bv {
-			c = ix.Args[1]
-		} else if ix.Args[1] == bv {
-			c = ix.Args[0]
+		// the index is i + c for some c free of i (any linear arrangement of it)
+		lin, k0 := linearize(p.Args[1])
+		if co, ok := lin[bv]; !ok || co.Cmp(big.NewInt(1)) != 0 {
+			continue
 		}
-		if c == nil || containsTerm(c, bv) || containsTerm(p.Args[0], bv) {
+		delete(lin, bv)
+		c := fromLinear(lin, k0)
+		if containsTerm(c, bv) || containsTerm(p.Args[0], bv) {
 			continue
 		}
 		// triggers of the written form that are not reads at c + i (function applications over i) keep
@@ -1429,7 +1429,14 @@ func (s *Script) postDecl() string {
 	return ""
 }
 
+// definedFuncs: spec functions with a visible body (the solvers expand them as macros, also inside
+// triggers, where their ite/and structure is not allowed).
+var definedFuncs = map[string]bool{}
+
 func validPattern(t *Term) bool {
+	if t.Op == "app" && definedFuncs[t.Name] {
+		return false
+	}
 	switch t.Op {
 	case "ite", "and", "or", "not", "=>", "=", "<", "<=", "forall", "exists", "true", "false":
 		return false
